@@ -973,3 +973,32 @@ Theorem C12_parse_total_partial_fuel_tail2 :
     end.
 Proof. exact tail2_returns. Qed.
 Print Assumptions C12_parse_total_partial_fuel_tail2.
+
+(** NEVER A HANG, the inner loops of the resolve passes (pass 3): they run on their OWN fuel, poolFuel = pool size + 2, and it
+    suffices - insideSelf (relocateNamedObjects: the ancestors of the target, one unit per ancestor; the depth of a live object is below
+    the pool size) and scopeOf (both passes: the children of the target up to its ScopeBlock, one unit per child) return without a
+    state change from any state with [R], valid indexes and slices inside.  (For moveContents the existing lemma move_all of
+    ParserTotalMerge.v already demands and gets "number of children < fuel".)  NOT covered: the walks mergeScopeDirectives /
+    relocateNamedObjects themselves and the outer loop - a moved object can be visited a second time below its new scope, so the
+    subtree-size measure of the other walks does not apply unchanged; see notes/c12res.md. *)
+Theorem C12_parse_total_partial_fuel_insideSelf :
+  forall (a obj : N) (s : pstate) (g : ghost),
+    TI s g -> glive g a ->
+    match (mlet pf <~ poolFuel ;; insideSelf_go pf (Some a) obj) s with
+    | Ok (_, s') => s' = s
+    | Panic => False
+    | OutOfFuel => False
+    end.
+Proof. exact insideSelf_poolFuel. Qed.
+Print Assumptions C12_parse_total_partial_fuel_insideSelf.
+
+Theorem C12_parse_total_partial_fuel_scopeOf :
+  forall (target : N) (s : pstate) (g : ghost),
+    TI s g -> glive g target ->
+    match scopeOf target s with
+    | Ok (_, s') => s' = s
+    | Panic => False
+    | OutOfFuel => False
+    end.
+Proof. exact scopeOf_returns. Qed.
+Print Assumptions C12_parse_total_partial_fuel_scopeOf.
